@@ -370,7 +370,10 @@ class Run:
         mine = [k for k in kf if k.get("property") == self.pid and k.get("status", "open") == "open"]
         violations = []
         known_hit = {}
+        ext = [r for r in self.rejects if r["name"].startswith("EXT.")]
         for r in self.rejects:
+            if r["name"].startswith("EXT."):
+                continue   # behaviour outside the listed properties: reported, never a verdict on a listed property
             hit = None
             for k in mine:
                 if match_known(k, r):
@@ -388,6 +391,12 @@ class Run:
             with open(dump, "w", encoding="utf-8") as f:
                 for r in self.rejects:
                     f.write(json.dumps({"name": r["name"], "key": r["key"]}, ensure_ascii=False) + "\n")
+        extn = {}
+        for r in ext:
+            extn.setdefault(r["name"], []).append(r["key"])
+        for name, keys in sorted(extn.items()):
+            print("EXT-OBSERVATION (specified behaviour outside the listed properties; not a verdict): %s count=%d first_key=%s" % (name, len(keys), keys[0][:200]))
+        self.cov["extension_rejects"] = {k: len(v_) for k, v_ in extn.items()}
         replay_dir = os.path.join(VERIF, "out", "replay", self.pid)
         shutil.rmtree(replay_dir, ignore_errors=True)
         nviol = 0
